@@ -106,6 +106,7 @@ type Engine struct {
 	inInit       bool
 	forkSites    map[string]int
 	raceG        int
+	sampleCex    []*CexFile
 }
 
 type ReplayInput struct {
